@@ -473,11 +473,14 @@ def scen_subjects(rng, n):
         out.append(("(conc C12-%d (pipe %s %s (sub-after 0 (ref a))))" % (i, decl, drive([1, 2, 3])), (kind, "late1", [[1, 2, 3]]))); i += 1
         out.append(("(conc C12-%d (pipe %s %s %s (sub-after 0 (ref a))))" % (i, decl, drive([1, 2]), drive([11, 12])), (kind, "late", [[1, 2], [11, 12]]))); i += 1
         out.append(("(conc C12-%d (pipe %s (hnext a 5) %s (sub-after 0 (ref a))))" % (i, decl, drive([1, 2])), (kind, "late1h", [[1, 2]]))); i += 1
+        # the last observer leaves while a new one arrives (and a producer pushes); afterwards the main thread pushes sentinels
+        out.append(("(conc C12-%d (pipe %s (sub (ref a) (react)) %s (unsub-after 0 0) (sub-after 0 (ref a)) (settle 10) (hnext a 99)))" % (i, decl, drive([1, 2])), (kind, "swap", [[1, 2]], ["99"]))); i += 1
+        out.append(("(conc C12-%d (pipe %s (sub (ref a) (react)) (unsub-after 0 0) (sub-after 0 (ref a)) (settle 10) (hnext a 99) (hnext a 98)))" % (i, decl), (kind, "swap", [[]], ["99", "98"]))); i += 1
     return out
 
 
 def oracle_subjects(payload, info):
-    kind, mode, lists = info
+    kind, mode, lists = info[0], info[1], info[2]
     d = parse_pipe(payload)
     if d is None:
         return "malformed record"
@@ -505,6 +508,12 @@ def oracle_subjects(payload, info):
                 return "%s: the unsubscribing observer did not get a prefix: %s" % (kind, got)
             if mode.startswith("late") and kind == "plain" and got != want[len(want) - len(got):]:
                 return "plain subject: the late subscriber did not get a suffix: %s" % got
+        if mode == "swap" and u == 1:
+            # the subscriber that arrived during the swap is still subscribed when the main thread pushes the sentinels
+            sentinels = info[3]
+            got_s = [x for x in items if x in sentinels]
+            if got_s != sentinels:
+                return "%s: a subscriber that stays subscribed missed items pushed after it had subscribed: got %s of %s" % (kind, got_s, sentinels)
         if mode.startswith("late") and kind == "replay":
             if sorted(x for x in items if x in allv) != sorted(allv):
                 return "replay late subscriber: did not receive every item exactly once: %s" % items
